@@ -225,7 +225,7 @@ _add(
         "kept) of the resolved expression == tree of the textually substituted expression; flags separately; unknown package => "
         "NotImplementedError. distinct non-trivial = distinct (expression, table) with >= 2 package occurrences or package + time condition"
     ),
-    deciding={"any": {"cases": 200, "package_occurrences": 300, "time_condition_occurrences": 100, "unknown_package_runs": 20, "exactly_equal": 500, "distinct_release_orders": 100}},
+    deciding={"any": {"cases": 200, "package_occurrences": 300, "time_condition_occurrences": 100, "unknown_package_runs": 20, "exactly_equal": 500, "distinct_release_orders": 100, "resolutions_with_shipped_resolvers": 100}},
     headline=["cases", "package_occurrences", "time_condition_occurrences", "unknown_package_runs", "distinct_release_orders", "association_only_difference"],
 )
 
